@@ -69,7 +69,8 @@ add("C05", "CH",
     "For ALL presence patterns of flattened parameters and request kinds, and all menu values (incl. falsy-but-set): "
     "ValueError iff both given and then nothing sent; otherwise the message reaching the transport equals the reference "
     "message under the wire keys (dotted, repeated, map, reserved names, cross-package requests); sync == async; "
-    "declared parameter order via inspect.signature.",
+    "declared parameter order via inspect.signature. The asyncio client's handling of an EMPTY list for a dotted repeated "
+    "leaf is a recorded known finding (F11), replayed concretely on the real emitted package each run.",
     "DESIGN.md section 5 C05", CLIENT_NOTE)
 
 add("C06", "RX+CH+BSTR",
